@@ -353,8 +353,17 @@ func c20Go(c *Ctx) {
 	r.Check(okSwap, "C20.rounds.go-swap", c.P.Pos(fn.Pos()), "after a round the from and to pairs are exchanged (l with l, h with h)")
 	b := ana.NewBuilder(c.P, fn)
 	nr, _ := c.P.Pkg("pkg/curl").Members["NumRounds"].(*ssa.NamedConst)
-	cond := len(edgesMatching(b, "bin<>>(ind<-1>(81), 0)")) == 1
-	r.Check(cond && roundInit == 81 && nr != nil && nr.Value.Int64() == 81, "C20.rounds.go-count", c.P.Pos(fn.Pos()), "round counter runs 81, 80, …, 1 (NumRounds = 81): 81 rounds")
+	trips, nHdr := int64(-1), 0
+	for _, ce := range b.CondEdges() {
+		if ce.From == hdr && ce.Taken {
+			nHdr++
+			if n, ok := tripCount(ce.Lit); ok {
+				trips = n
+			}
+		}
+	}
+	_ = roundInit
+	r.Check(nHdr == 1 && trips == 81 && nr != nil && nr.Value.Int64() == 81, "C20.rounds.go-count", c.P.Pos(fn.Pos()), "the round loop is a counted loop with exactly 81 iterations in either direction (NumRounds = 81): %d", trips)
 }
 
 func c20BuildTags(c *Ctx) {
